@@ -125,32 +125,75 @@ Definition configure (c : coll) (options : tree) : result coll :=
       end
   end.
 
-(** Run a build script (children are built before they are attached). *)
-Fixpoint build (it : item) : result coll :=
-  match it with
-  | ITask _ _ _ _ => Err EOther
-  | ISub cname ad cfg items _ _ =>
-      match
-        (fix go (l : list item) (c : coll) {struct l} : result coll :=
-           match l with
-           | [] => Ok c
-           | it' :: l' =>
-               match it' with
-               | ITask t n al d =>
-                   match add_task c t n al d with Ok c' => go l' c' | Err e => Err e end
-               | ISub _ _ _ _ bn d =>
-                   match build it' with
-                   | Ok sc =>
-                       match add_collection c sc bn d with Ok c' => go l' c' | Err e => Err e end
-                   | Err e => Err e
-                   end
-               end
-           end) items (new_coll cname ad)
-      with
-      | Ok c => configure c cfg
-      | Err e => Err e
-      end
-  end.
+(** [Collection.from_module(module, auto_dash_names=ad)] for a module with an
+    explicit namespace [c] (attribute [ns]): a new collection named after the
+    namespace (or the module), whose task and collection Lexicons are
+    re-keyed with the new collection's [transform] (values deep-copied, so
+    sub-collections keep their own setting), default re-normalised,
+    configuration copied.  An explicit namespace that is falsy (no task names
+    at all) is ignored and the module's top-level tasks are collected instead
+    -- there are none in the modules built here. *)
+Definition rekey {A} (ad : bool) (d : list (string * A)) : list (string * A) :=
+  fold_left (fun acc kv => aset (transform ad (fst kv)) (snd kv) acc) d [].
+
+Definition first_truthy (a b : option string) : option string := if truthy a then a else b.
+
+Definition reimport (is_empty : bool) (c : coll) (modname : string) (ad : option bool) : result coll :=
+  let ad' := match ad with Some b => b | None => true end in
+  if is_empty then Ok (new_coll (Some modname) ad')
+  else
+    match c with
+    | Coll cn tasks aliases subs dflt _ cfg =>
+        match copy_dict (Node cfg) with
+        | Err e => Err e
+        | Ok cfg' =>
+            Ok (Coll (option_map (transform ad') (first_truthy cn (Some modname)))
+                     (rekey ad' tasks)
+                     (fold_left (fun acc kv => aset (transform ad' (fst kv)) (transform ad' (snd kv)) acc)
+                                aliases [])
+                     (rekey ad' subs)
+                     (if truthy dflt then option_map (transform ad') dflt else None)
+                     ad' cfg')
+        end
+    end.
+
+(** Run a build script (children are built before they are attached).
+    [names_of] stands for [task_names] (defined below), needed for the
+    truthiness of an explicit namespace. *)
+Section Build.
+  Variable names_empty : coll -> bool.
+
+  Fixpoint build_with (it : item) : result coll :=
+    match it with
+    | ITask _ _ _ _ => Err EOther
+    | IMod mn ad nsitem _ _ =>
+        match build_with nsitem with
+        | Ok c => reimport (names_empty c) c mn ad
+        | Err e => Err e
+        end
+    | ISub cname ad cfg items _ _ =>
+        match
+          (fix go (l : list item) (c : coll) {struct l} : result coll :=
+             match l with
+             | [] => Ok c
+             | it' :: l' =>
+                 match it' with
+                 | ITask t n al d =>
+                     match add_task c t n al d with Ok c' => go l' c' | Err e => Err e end
+                 | ISub _ _ _ _ bn d | IMod _ _ _ bn d =>
+                     match build_with it' with
+                     | Ok sc =>
+                         match add_collection c sc bn d with Ok c' => go l' c' | Err e => Err e end
+                     | Err e => Err e
+                     end
+                 end
+             end) items (new_coll cname ad)
+        with
+        | Ok c => configure c cfg
+        | Err e => Err e
+        end
+    end.
+End Build.
 
 (** * Lookup: [task_with_config], [__getitem__], [__contains__], [configuration] *)
 (** [_task_with_merged_config]: recursive merge, ours on top. *)
@@ -421,3 +464,8 @@ Fixpoint json_rows (c : coll) (depth : nat) {struct c} : list row :=
                      end) subs)
                order
   end.
+
+(** [Collection.__bool__] = [bool(self.task_names)] *)
+Definition names_empty (c : coll) : bool := match task_names c with [] => true | _ => false end.
+
+Definition build (it : item) : result coll := build_with names_empty it.
